@@ -191,6 +191,17 @@ def run(chk: Check):
         chk.add_tlc(r, "M1-intended-atomic-print")
         if r.violated or missing:
             raise tlc.TLCFailure("MC_ConsoleConc (atomic print) violated=%s missing=%s" % (r.violated, missing))
+        # print / capture / record path at the grain of console.py's critical sections
+        rb, covb, missb = tlc.model_check("MC_ConsoleBuf", require_actions=["Begin", "Enter", "Render", "Exit", "Acquire", "Record", "Write", "EndCap", "End"])
+        chk.add_tlc(rb, "M1-buffer-capture-record")
+        if rb.violated or missb:
+            raise tlc.TLCFailure("MC_ConsoleBuf violated=%s missing=%s" % (rb.violated, missb))
+        for guard, inv in (("MC_ConsoleBuf_shared", "a shared buffer"), ("MC_ConsoleBuf_recout", "recording outside the console lock")):
+            rg, _, _ = tlc.model_check("MC_ConsoleBuf", cfg=guard)
+            chk.add_tlc(rg, "M1-buffer-guard")
+            if not rg.violated:
+                raise tlc.TLCFailure("vacuity guard: TLC did not refute the design with %s" % inv)
+        chk.notes["buffer_design_mistakes_refuted"] = ["SharedBuffer", "RecordOutsideLock"]
         for extra in ("MC_ConsoleConc_3", "MC_ConsoleConc_refresh_only"):
             rx, _, _ = tlc.model_check("MC_ConsoleConc", cfg=extra)
             chk.add_tlc(rx, "M1-" + extra[15:])
